@@ -32,6 +32,7 @@ from gverif.props import c05_lib as lib
 PRESENT = {
     "chain": ["p", "p.a", "p.b"], "chain-q": ["p", "p.a", "p.b"], "exports": ["p", "p.a", "p.b"], "exports-q": ["p", "p.a", "p.b"],
     "pkg": ["p", "p.s", "p.s.c"], "pkg-q": ["p", "p.s", "p.s.c"], "reexp": ["p", "p.a", "p.b"], "reexp-q": ["p", "p.a", "p.b"],
+    "topstar": ["p", "p.a", "p.b"],
 }
 
 
@@ -51,9 +52,20 @@ def _sorted_walk(orig):
 _W = {}
 
 
+class Hang(Exception):
+    pass
+
+
+def _alarm(_sig, _frm):
+    raise Hang()
+
+
 def _worker_init():
+    import signal
+
     griffe = ensure_repo()
     os.walk = _sorted_walk(os.walk)
+    signal.signal(signal.SIGVTALRM, _alarm)   # CPU time of this process: a starved machine is not a hang
     _W["griffe"] = griffe
     _W["oracle"] = lib.Oracle()
 
@@ -101,12 +113,17 @@ def run_case(case: dict) -> dict:
         out["py"] = oracle.ask(d, present)
         tap = lib.Tap(griffe)
         try:
+            import signal
+
             loader = griffe.GriffeLoader(search_paths=[d], allow_inspection=False)
+            signal.setitimer(signal.ITIMER_VIRTUAL, 10.0)      # a load that does not come back within 10 s of CPU time counts as a crash ("Hang")
             try:
                 loader.load("p")
                 loader.resolve_aliases(implicit=True, external=False)
             except Exception as exc:  # noqa: BLE001
                 out["crash"] = type(exc).__name__
+            finally:
+                signal.setitimer(signal.ITIMER_VIRTUAL, 0)
         finally:
             tap.close()
         out["trace"] = tap.events
@@ -241,7 +258,7 @@ def evaluate(run: Run, case: dict, res: dict, stats: dict):
     for clause, m, n, detail, what in bad:
         pred = (clause, m, n) in predicted or (clause == "crash" and case["crashed"] != "")
         sig = {"clause": clause, "detail": detail, "cause": cause, "predicted": pred}
-        run.violation(sig, f"[{lib.prog_text(case['prog'])}] {what}", {"family": case["family"], "prog": case["prog"]})
+        run.violation(sig, f"[{lib.prog_text(case['prog'])}] {what}", case)
     stats["diverging"] += 1 if bad else 0
     if len(run.samples) < 4 and (bad or len(run.samples) < 2):
         run.sample({"program": lib.prog_text(case["prog"]), "flags": case["flags"], "model_diff": case["diff"], "real_divergences": [b[4] for b in bad][:3]})
@@ -290,11 +307,15 @@ def replay_all(run: Run, cases: list, workers: int, stats: dict):
                 evaluate(run, case, res, stats)
 
 
+# families of each tier; the statement bound of every family is Loader.tla's MaxTotal table (Scale)
 TIERS = {
-    # family -> (MaxTotal for gen/check)
-    "quick": {"chain-q": 3, "exports-q": 4, "pkg-q": 3, "reexp-q": 6},
-    "thorough": {"chain": 4, "chain-q": 5, "exports": 5, "pkg": 5, "reexp": 6},
+    "quick": ["chain-q", "exports-q", "pkg-q", "reexp-q"],
+    "thorough": ["chain-q", "chain", "exports", "pkg", "reexp", "topstar"],
 }
+
+
+def fam_set(fams) -> str:
+    return ", ".join(f'"{f}"' for f in fams)
 
 
 def main(tier: str, replay: str | None = None):
@@ -308,54 +329,57 @@ def main(tier: str, replay: str | None = None):
     if replay:
         with open(replay) as fh:
             rec = json.load(fh)
-        c = rec["case"]
+        c = rec["case"]          # the complete record TLC emitted for this program (reference, model projection, predicted divergences)
         print(rec["what"])
-        fam = c["family"]
-        res = tlc.must(tlc.run("Loader", "Loader_c05_gen.cfg", workers=2, timeout=3000, constants={"FAMILY": fam, "DOMAIN": "all", "TOTAL": sum(len(e["stmts"]) for e in c["prog"]), "TRACE": "TRUE"}))
-        run.add_tlc(res)
-        match = [x for x in res.cases if x["prog"] == c["prog"]]
-        if not match:
-            die("C05 replay: TLC did not regenerate the stored program")
-        replay_all(run, match[:1], 1, stats)
+        replay_all(run, [c], 1, stats)
         run.extra["stats"] = stats
+        run.states = run.transitions = 1
         run.finish()
     fams = TIERS[tier]
     t0 = time.time()
-    jobs = {}
-    nw = 3 if tier == "quick" else 4
-    with ThreadPoolExecutor(max_workers=12) as pool:
-        for fam, total in fams.items():
-            # domain "all": every program is emitted; the clauses are claimed (INVARIANT) for the programs without a defect pattern
-            jobs["gen", fam] = pool.submit(tlc.run, "Loader", "Loader_c05.cfg", workers=nw, timeout=6000, heap="6g",
-                                           constants={"FAMILY": fam, "DOMAIN": "all", "GEN": "TRUE", "TOTAL": total, "TRACE": "TRUE"})
-            # domain "defect": only programs with a recorded pattern, clauses claimed for all of them -> TLC exhibits the defect
-            jobs["defect", fam] = pool.submit(tlc.run, "Loader", "Loader_c05.cfg", workers=2, timeout=6000, heap="4g", dump_trace=True,
-                                              constants={"FAMILY": fam, "DOMAIN": "defect", "GEN": "FALSE", "TOTAL": total, "TRACE": "FALSE"})
+    nw = 8 if tier == "quick" else 12
+    common = {"FAMILIES": fam_set(fams), "SCALE": tier, "CAP": 0}
+    with ThreadPoolExecutor(max_workers=2) as pool:
+        # domain "all": every program is emitted; the clauses are claimed (INVARIANT) for the programs without a defect pattern
+        jgen = pool.submit(tlc.run, "Loader", "Loader_c05.cfg", workers=nw, timeout=6000, heap="8g",
+                           constants=dict(common, DOMAIN="all", GEN="TRUE", TRACE="TRUE"))
+        # domain "defect": only programs with a recorded pattern, clauses claimed for all of them -> TLC exhibits a defect
+        jdef = pool.submit(tlc.run, "Loader", "Loader_c05.cfg", workers=2, timeout=6000, heap="4g", dump_trace=True,
+                           constants=dict(common, DOMAIN="defect", GEN="FALSE", TRACE="FALSE"))
     model = {}
-    cases = []
-    for fam in fams:
-        res = tlc.must(jobs["gen", fam].result(), allow_violations=True)
-        run.add_tlc(res)
-        model[fam + "/claimed"] = res.violated
-        if res.violated:
-            print(res.tail)
-            die(f"C05: Loader.tla violates {res.violated} on a program of family {fam} that matches no recorded defect pattern - "
-                "replay it and either record the pattern or fix the model")
-        cases += res.cases
-        res = tlc.must(jobs["defect", fam].result(), allow_violations=True)
-        run.add_tlc(res)
-        model[fam + "/defect"] = res.violated
+    res = tlc.must(jgen.result(), allow_violations=True)
+    run.add_tlc(res)
+    model["claimed"] = res.violated
+    if res.violated:
+        print(res.tail)
+        die(f"C05: Loader.tla violates {res.violated} on a program that matches no recorded defect pattern - "
+            "replay it and either record the pattern or fix the model")
+    cases = res.cases
+    res = tlc.must(jdef.result(), allow_violations=True)
+    run.add_tlc(res)
+    model["defect-domain"] = res.violated
+    if res.trace:
+        last = res.trace[-1]
+        prog = [{"m": m, "stmts": last["prog"][m]} for m in PRESENT[last["Family"]]]
+        run.note(f"defect domain: TLC exhibits {res.violated} on [{lib.prog_text(prog)}] (family {last['Family']})")
+    pred = {}
+    for c in cases:
+        for d in c["diff"]:
+            k = "+".join(sorted(c["flags"])) + ":" + d["clause"]
+            pred[k] = pred.get(k, 0) + 1
+    run.extra["model_predicted_divergences"] = pred
+    fcount = {}
+    for c in cases:
+        fcount[c["family"]] = fcount.get(c["family"], 0) + 1
+    run.extra["programs_per_family"] = fcount
     run.extra["model_verdicts"] = model
     run.extra["tlc_wall_s"] = round(time.time() - t0, 1)
-    # counterexamples of the defect domain: the program of the last state must be among the generated cases
-    for fam in fams:
-        tr = jobs["defect", fam].result().trace
-        if tr:
-            prog = tr[-1]["prog"]
-            key = {m: stmts for m, stmts in prog.items() if stmts}
-            hit = [c for c in cases if c["family"] == fam and {e["m"]: e["stmts"] for e in c["prog"] if e["stmts"]} == key]
-            run.note(f"family {fam}: TLC exhibits {model[fam + '/defect']} in the defect domain on [{lib.prog_text(hit[0]['prog']) if hit else key}]"
-                     + ("" if hit else " (program not among the generated cases!)"))
+    # vacuity: every family produced programs, every statement form and every tapped loader function occurs
+    ops_seen = {st["op"] for c in cases for e in c["prog"] for st in e["stmts"]}
+    frames_seen = {ev[0] for c in cases for ev in c["hist"]}
+    missing = [f for f in fams if not fcount.get(f)] + sorted({"def", "from", "import", "star", "all", "aug"} - ops_seen) + sorted({"LD", "RA", "EE", "EW", "RM", "RT"} - frames_seen)
+    if missing or len(cases) < (1000 if tier == "quick" else 20000) or not any(c["diff"] for c in cases):
+        die(f"C05: vacuous enumeration: missing {missing}, {len(cases)} programs")
     rnd = random.Random(SEED)
     cap = 2600 if tier == "quick" else 60000
     run.exhaustive = len(cases) <= cap
@@ -368,6 +392,7 @@ def main(tier: str, replay: str | None = None):
         cases = keep + rnd.sample(rest, min(len(rest), cap - len(keep)))
     replay_all(run, cases, 6 if tier == "quick" else 10, stats)
     run.extra["stats"] = stats
+    run.extra["replay_wall_s"] = round(time.time() - t0 - run.extra["tlc_wall_s"], 1)
     if stats["drift"] or stats["trace_rejected"]:
         run.note(f"model drift on {stats['drift']} case(s), {stats['trace_rejected']} recorded trace(s) rejected (verdicts come from the comparison with CPython)")
     run.finish()
